@@ -44,6 +44,13 @@ def leg_family():
                     layers += [{"b": ZB("SWAP", 2, 2), "off": o[0]} for o in pre]
                     layers.append({"b": ZB(k, n, 1, 3), "off": 0})
                     out.append({"dom": n, "layers": layers})
+    # Hadamards in a row on one wire (two cancel, three are one), before / after / between spiders and across a swap
+    H, S = {"b": ZB("H", 1, 1), "off": 0}, {"b": ZB("SWAP", 2, 2), "off": 0}
+    for nh in (2, 3, 4):
+        out.append({"dom": 1, "layers": [{"b": ZB("Z", 1, 1, 4), "off": 0}] + [H] * nh + [{"b": ZB("X", 1, 1, 2), "off": 0}]})
+        out.append({"dom": 1, "layers": [H] * nh + [{"b": ZB("Z", 1, 2, 3), "off": 0}]})
+        out.append({"dom": 1, "layers": [{"b": ZB("X", 1, 1, 5), "off": 0}] + [H] * nh})
+        out.append({"dom": 2, "layers": [H] * (nh // 2) + [S] + [{"b": ZB("H", 1, 1), "off": 1}] * (nh - nh // 2) + [{"b": ZB("Z", 2, 1, 3), "off": 0}]})
     return out
 
 
@@ -82,7 +89,7 @@ def run(tier, seed, t0):
                 sample.append(steps[-1][1]["zd"])
             os.remove(path)
         family = leg_family()
-        sample = sample + (family if tier != "quick" else family[::2])
+        sample = sample + (family if tier != "quick" else family[:-12][::2] + family[-12:])
         rows, tens = [], []
         for d in sample:
             rec = {"kind": "to", "zx": d, "g": EMPTY_G, "exc": "", "bad": ""}
